@@ -994,7 +994,7 @@ def obligations(tier: str) -> list[dict]:
         LINE5 = [[0, 1], [1, 2], [2, 3], [3, 4]]
         fam(2, 2, 3, ALL, F, T)
         fam(5, 5, 1, [10], F, T, max_edges=4)
-        fam(5, 5, 2, [10, 2], Q, T, split=1, max_edges=4)
+        fam(5, 5, 2, [10, 2], 'quick', T, split=1, max_edges=4)
         fam(2, 5, 2, [2, 5], F, T, split=1)
         fam(3, 3, 3, [2, 3, 5], F, T, split='op0')
         fam(3, 4, 2, ALL, F, T, split='op0')
